@@ -21,8 +21,9 @@ RULE = ("(A) every byte string up to length n over a per-protocol alphabet (deli
         "P=pause+resume inside the callback, q=application close, r=raw mode for 2 bytes) x every composition "
         "(<= 9 bytes), every <= 2 cuts (<= 16 bytes) or every single cut and every isolated 1-2 byte delivery, + bytewise; (C) every sequence of <= 2 (3) messages through "
         "sendLine/sendString into a fresh receiver x every composition. Each run's event log is compared with the "
-        "reference framing. non-trivial = distinct (receiver, stream, segmentation) in which a delivery boundary fell "
-        "strictly inside a frame (length prefix, payload, or delimiter)")
+        "reference framing. non-trivial = distinct (receiver, stream, position of the first delivery boundary that falls "
+        "strictly inside a frame: length prefix, payload or delimiter); the counter segmentations_cutting_a_frame "
+        "gives the number of executions with such a boundary")
 BOUNDS = {"quick": "A: length <= 7 (line), 5-6 (netstring), 5-7 (intN); B: <= 3 tokens; C: <= 2 messages; MAX_LENGTH in {1,2,3,4,10}",
           "thorough": "A: length <= 8 (line), 6-7 (netstring), 6-8 (intN); B: <= 4 tokens; C: <= 3 messages"}
 ASSUMPTIONS = [
@@ -388,16 +389,16 @@ def all_segs(s, tier):
 
 
 def inside_frame(kind, delim, segs, frames, stream):
-    """non-triviality: some delivery boundary is not a frame boundary."""
+    """non-triviality: position of the first delivery boundary that is not a frame boundary (0 = none)."""
     if len(segs) < 2:
-        return False
+        return 0
     ends = frames if isinstance(frames, set) else {f[2] for f in frames}
     p = 0
     for sg in segs[:-1]:
         p += len(sg)
         if p not in ends:
-            return True
-    return False
+            return p
+    return 0
 
 
 def configs(tier, seed):
@@ -494,8 +495,10 @@ def check_stream(st, cfg, s, tier, seen):
         st.evaluations += 1
         if whole is None:
             whole = got
-        if inside_frame(kind, delim, segs, frames, s):
-            st.nt(hash((kind, m, delim, s, tuple(len(x) for x in segs))))
+        cutpos = inside_frame(kind, delim, segs, frames, s)
+        if cutpos:
+            st.nt(hash((kind, m, delim, s, cutpos)))
+            st.count("segmentations_cutting_a_frame")
         sig = classify(kind, m, delim, s, segs, got, req, opt, frames)
         if sig is None and got != whole and classify(kind, m, delim, s, (s,), whole, req, opt, frames) is None:
             sig = NAMES[kind] + ":segmentation-changes-events"
@@ -553,7 +556,7 @@ def check_send(st, cfg, tier):
                 got = execute(kind, m, delim, segs)
                 st.evaluations += 1
                 if len(segs) > 1:
-                    st.nt(hash((kind, "send", msgs, tuple(len(x) for x in segs))))
+                    st.nt(hash((kind, "send", msgs, len(segs[0]))))
                 if got != exp or raised:
                     sig = classify(kind, m, delim, wire, segs, got, exp, None, frames)
                     st.violation(sig if sig == KNOWN_LINEONLY else name + ":sent-message-not-received-exactly",
